@@ -59,6 +59,13 @@ def tables(em, code, p):
     return [np.array(a, copy=True) for a in em.probability_distribution(code, p)]
 
 
+def poison(n, tick):
+    vals = (0.93, 0.021, 0.47, 0.77)
+    for size in (n, 2 * n):
+        junk = [np.full(size, vals[(tick + j) % len(vals)]) for j in range(8)]
+        del junk
+
+
 class Recorder:
     """Event log of one decoder configuration (see DecoderContract.tla)."""
 
@@ -90,6 +97,11 @@ class Recorder:
               'syn': [int(i) for i in np.nonzero(np.asarray(before).ravel())[0]],
               'corr': {'x': [], 'z': []}, 'len': 0, 'binary': False,
               'raised': '', 'syn_intact': True, 'tables_intact': True}
+        # freed blocks of the sizes a decoder typically allocates are filled
+        # with recognisable values first: a decoder that reads memory it has
+        # not written (np.empty taken for np.zeros) then sees values that
+        # change from call to call instead of whatever happened to be there
+        poison(n, len(self.events))
         try:
             import contextlib, io, signal
 
